@@ -362,6 +362,11 @@ func (f *frame) lockOp(st *State, ins *ssa.Call, from, to string) Val {
 }
 
 func mAtomicLoad(f *frame, st *State, ins *ssa.Call, args []Val) Val {
+	// every atomic read is counted: a detection that samples the limit more than once may see two
+	// different values when SetLimit runs concurrently, so the sequential proof would not carry over
+	if c, ok := st.ghost["atomic_loads"].(VInt); ok {
+		st.ghost["atomic_loads"] = VInt{tAdd(c.T, "1")}
+	}
 	if g, ok := args[0].(VGlobalPtr); ok {
 		return f.ex.prog.globalLoad(f.ex, st, g.G)
 	}
